@@ -63,7 +63,7 @@ SAFE_VAR_NAMES = ["userId", "firstName", "HTTPCode", "id2", "class", "from", "No
                   "fooBar", "isOK", "filter", "input", "first", "URLValue", "in", "is", "def", "Optional", "List",
                   "UNSET", "execute", "url", "headers"]
 CLASH_VAR_NAMES = ["self", "kwargs", "gql", "foo_bar", "self_", "kwargs_", "class_", "_query", "_data", "Query",
-                   "_userId", "user_id", "ser_DateTime", "_1"]
+                   "_userId", "user_id", "ser_DateTime", "_1", "from_", "None_", "ser_JSONBlob", "UnsetType"]
 LOCAL_CLASH_NAMES = ["query", "variables", "response", "data", "_query", "gql", "Optional", "List", "Any", "Dict",
                      "Union", "TYPE_CHECKING", "UNSET", "UnsetType", "AsyncIterator", "Upload", "BaseModel"]
 WRAPPERS = ["{}", "{}!", "[{}]", "[{}!]", "[{}]!", "[{}!]!", "[[{}]]", "[[{}!]!]!"]
